@@ -129,6 +129,64 @@ def audit(prop, mods, theorems):
     return (not problems), res, problems
 
 
+def start_coverage():
+    """Line coverage of /repo's package while the correspondence runs (a measurement of what the tie exercised, reported in the
+    evidence; never a verdict).  Uses coverage.py from /venv when present."""
+    try:
+        import coverage
+    except Exception:
+        return None
+    os.environ.setdefault("COVERAGE_CORE", "sysmon")
+    try:
+        cov = coverage.Coverage(data_file=None, include=["*/queasars/*"], concurrency=["thread"], messages=False)
+        cov.start()
+        return cov
+    except Exception:
+        return None
+
+
+def ranges(nums):
+    out, nums = [], sorted(nums)
+    i = 0
+    while i < len(nums):
+        j = i
+        while j + 1 < len(nums) and nums[j + 1] == nums[j] + 1:
+            j += 1
+        out.append(str(nums[i]) if i == j else f"{nums[i]}-{nums[j]}")
+        i = j + 1
+    return ",".join(out)
+
+
+def coverage_report(cov, prop):
+    """Per anchored source file of the property: executable lines, lines executed during this run, the lines not reached."""
+    if cov is None:
+        return None
+    try:
+        cov.stop()
+        anchors = []
+        for line in open(os.path.join(VERIF, "properties.jsonl")):
+            p = json.loads(line)
+            if p["id"] == prop:
+                anchors = p["anchors"]["files"]
+        import queasars
+
+        root = os.path.dirname(os.path.dirname(os.path.abspath(queasars.__file__)))
+        rep = {}
+        for rel in anchors:
+            path = os.path.join(root, rel)
+            if not os.path.exists(path):
+                continue
+            try:
+                _, executable, _, missing, _ = cov.analysis2(path)
+            except Exception as e:  # file never imported
+                rep[rel] = {"executable": None, "executed": 0, "note": f"not measured: {e}"[:120]}
+                continue
+            rep[rel] = {"executable": len(executable), "executed": len(executable) - len(missing), "not_reached": ranges(missing)}
+        return rep
+    except Exception as e:
+        return {"error": str(e)[:200]}
+
+
 def load_known():
     p = os.path.join(VERIF, "known_findings.json")
     if not os.path.exists(p):
@@ -160,6 +218,7 @@ def main():
 
     threading.Thread(target=_watchdog, daemon=True).start()
 
+    cov = start_coverage() if os.environ.get("VERIF_COVERAGE", "1") != "0" and not args.replay else None
     mod = importlib.import_module(f"corr_{prop}")
     META = mod.META
 
@@ -246,6 +305,8 @@ def main():
         ctx.notes.append(f"failing-input search: {ctx2.evaluations} further evaluations on the implementation")
     ctx.close()
 
+    cov_rep = coverage_report(cov, prop)
+
     # ---- 4. verdict -------------------------------------------------------------------------
     known = [k for k in load_known() if k.get("property") == prop and k.get("status") == "known"]
     known_keys = {k["key"] for k in known}
@@ -282,6 +343,7 @@ def main():
         "broken": broken,
         "notes": ctx.notes,
         "failing_input_search_ran": searched,
+        "anchored_source_line_coverage": cov_rep,
         **ctx.extra,
     }
     ev = {
